@@ -31,6 +31,7 @@ def units(tier, seed):
     for i in range(0, n, 25 if tier == 'thorough' else 50):
         us.append(('progpairs', i, min(n, i + (25 if tier == 'thorough' else 50)), tier))
     us.append(('indexing',))
+    us.append(('regex',))
     us.append(('builtins', 0))
     us.append(('builtins', 1))
     for i in range(16 if tier == 'quick' else 320):
@@ -106,6 +107,25 @@ def run_unit(unit, drv, res, seed, tier):
             o = check_total(res, c, r, 'indexing a pool value')
             res.count("index_outcome:" + (o[1] if o[0] == 'err' else o[0]))
         res.exhaustive_done['indexing-x-pool'] = True
+    elif kind == 'regex':
+        # one process, many distinct patterns, ill-formed ones in between (pattern caches, poisoned state)
+        cases = []
+        bad = ['(', '[', '\\', '*', 'a{', '(?P<', '\\p{Nope}', 'a**', '(?<x', '[z-a]', '\\', ')']
+        for i in range(400):
+            if i % 7 == 3:
+                p_ = bad[(i // 7) % len(bad)]
+            else:
+                p_ = ['^abc%d$' % i, 'a{%d}' % (i % 40), '[a-z]{1,%d}x%d' % (1 + i % 9, i), '(x|y%d)+' % i, '\\d{%d}' % (i % 30)][i % 5]
+            cases.append(exec_case(len(cases), "s.matches(p)", [("s", ('s', 'abc%d' % i)), ("p", ('s', p_))]))
+            if i % 3 == 0:
+                cases.append(exec_case(len(cases), "matches('xyz%d', %s)" % (i, render_literal(('s', p_)))))
+        out = drv.run(cases, 'regex')
+        for c, r in zip(cases, out):
+            res.evaluations += 1
+            res.nt(c["src"] + str(c.get("vars")))
+            o = check_total(res, c, r, 'matches() with many distinct patterns in one process')
+            res.count("regex_outcome:" + (o[1] if o[0] == 'err' else o[0]))
+        res.exhaustive_done['regex-pattern-sequence'] = True
     elif kind == 'builtins':
         cases = []
         fns = FUNCS + ["va", "h1_v", "m0_v", "ma", "o0_i", "h1_D", "h1_T", "h1_s", "t"]
@@ -118,6 +138,13 @@ def run_unit(unit, drv, res, seed, tier):
                 w = POOL[(vi * 7 + fi * 13) % len(POOL)]
                 cases.append(exec_case(len(cases), "a.%s(b)" % f, [("a", v), ("b", w)]))
                 cases.append(exec_case(len(cases), "%s(a, b)" % f, [("a", v), ("b", w)]))
+        # every macro over every pool value (ranges that are not collections, mixed-kind keys, hostile elements)
+        for vi, v in enumerate(POOL):
+            if vi % 2 != unit[1]:
+                continue
+            for src in ("a.all(x, x == x)", "a.exists(x, x != x)", "a.exists_one(x, true)", "a.map(x, x)", "a.map(x, x == a, [x])",
+                        "a.filter(x, x in a)", "[a, a].map(x, x.map(y, y))", "a.all(x, a.exists(y, y == x))"):
+                cases.append(exec_case(len(cases), src, [("a", v)]))
         for part in chunks(cases, 8000):
             out = drv.run(part, 'builtins')
             for c, r in zip(part, out):
